@@ -102,6 +102,14 @@ def distinctAux [DecidableEq α] (seen : List α) : List α → List α
 
 def distinct [DecidableEq α] (rows : List α) : List α := distinctAux [] rows
 
+/-- De-duplication through a *key*: a row is dropped when the key of an earlier kept row equals its key (what a
+seen-set holding `hash(row)`, `str(row)` or a "hashable form" of the row computes). -/
+def distinctOnAux {κ : Type} [DecidableEq κ] (k : α → κ) (seen : List κ) : List α → List α
+  | [] => []
+  | x :: xs => if k x ∈ seen then distinctOnAux k seen xs else x :: distinctOnAux k (k x :: seen) xs
+
+def distinctOn {κ : Type} [DecidableEq κ] (k : α → κ) (rows : List α) : List α := distinctOnAux k [] rows
+
 /-- `to_batches(size)` for `size ≥ 1` (fuel = number of rows: each step removes at least one). -/
 def batchesAux (size : Nat) : Nat → List α → List (List α)
   | 0, _ => []
